@@ -17,6 +17,8 @@ Stand-ins
                             the same with quantities and the default backend of Reaction.rate (energies in J, kJ, cal per mol)
   expr_classes              every expression class at random arguments: floats (math, numpy), quantities in mixed units (Backend()),
                             sympy symbols then substituted; unique-key overrides, string arguments, nested expressions, defaults
+  expr_classes_units_default_backend
+                            the same classes with quantities in non-coherent units and the default backend (math)
   log10_symbolic            Log10(...) evaluated with backend=sympy and substituted
   expr_trees                random trees over + - * / ** and negation with reflected plain-number operands and the shortcut
                             operands 0 and 1, leaves = Constant, Symbol/str, Arrhenius, polynomials, GibbsEqConst, Exp;
@@ -132,7 +134,7 @@ def run_constants(col):
 def gen_param(seed, i):
     rng = _par.sub_rng(seed, "C16", "param", i)
     kind = rng.choice(["arrhenius", "eyring"])
-    c = {"kind": kind, "T": rng.uniform(200, 2000), "T2": rng.uniform(200, 2000), "mode": rng.choice(["float", "float", "units"]),
+    c = {"kind": kind, "T": rng.uniform(200, 2000), "T2": rng.uniform(200, 2000), "mode": rng.choice(["float", "float", "units", "units_noconst"]),
          "backend": rng.choice([None, "math", "numpy", "sympy"]), "eunit": rng.randrange(3), "sunit": rng.randrange(2),
          "k": 10 ** rng.uniform(-6, 12)}
     if kind == "arrhenius":
@@ -181,6 +183,26 @@ def check_param(c):
                 g2 = _mag(ap(T2, backend=be))
                 if not _close(g2, w2, 1e-10 * (1 + ex + abs(Ea / (R_NUM * T2)))):
                     msgs.append("from_rateconst_at_T(...)(T2=%r) = %r, expected %r" % (T2, g2, w2))
+        elif c["mode"] == "units_noconst":
+            # quantities with the plain parameter classes: units object given, no constants object (numeric R and kB/h get units)
+            Tq = T * u.K
+            be = _be({"sympy": "Backend"}.get(c["backend"], c["backend"]))
+            kw = {} if be is None else {"backend": be}
+            if kind == "arrhenius":
+                obj = ArrheniusParam(p[0] / u.s, _q(p[1], "energy", c["eunit"]))
+            else:
+                obj = EyringParam(_q(p[0], "energy", c["eunit"]), _q(p[1], "entropy", c["sunit"] if c["backend"] == "sympy" else 0))
+            want, ex = _k_oracle(kind, p, T)
+            got = _mag(obj(Tq, units=u, **kw), 1 / u.s)
+            if not _close(got, want, 2e-9 * (1 + ex)):
+                msgs.append("%s%r as quantities (unit choice %d/%d)(%r K, units=default_units, constants=None, backend=%s) = %r 1/s, "
+                            "formula gives %r" % (kind, tuple(p), c["eunit"], c["sunit"], T, c["backend"], got, want))
+            if kind == "arrhenius":
+                k, Ea = c["k"], p[1]
+                ap = ArrheniusParam.from_rateconst_at_T(_q(Ea, "energy", c["eunit"]), (Tq, k / u.s), units=u)
+                back = _mag(ap(Tq, units=u, **kw), 1 / u.s)
+                if not _close(back, k, 2e-9 * (1 + abs(Ea / (R_NUM * T)))):
+                    msgs.append("round trip with units=default_units, constants=None: %r 1/s, given k = %r 1/s" % (back, k))
         else:
             Tq = T * u.K
             if kind == "arrhenius":
@@ -541,12 +563,10 @@ CLASSES = ["MassAction", "Arrhenius", "Eyring", "EyringHS", "Radiolytic", "Radio
            "MassActionEq", "Log10", "Exp", "Defaults"]
 
 
-def gen_cls(seed, i):
-    rng = _par.sub_rng(seed, "C16", "cls", i)
+def gen_cls(seed, i, units_default=False):
+    rng = _par.sub_rng(seed, "C16", "cls-d" if units_default else "cls", i)
     cls = CLASSES[i % len(CLASSES)]
-    mode = rng.choice(["math", "numpy", "units", "sympy"])
-    if cls == "Log10" and mode == "sympy":
-        mode = "math"                # sympy has no log10: that combination is the subject of the stand-in log10_symbolic
+    mode = "units_math" if units_default else rng.choice(["math", "numpy", "units", "sympy"])
     c = {"cls": cls, "mode": mode, "T": rng.uniform(200, 2000), "rxn": rng.randrange(len(REACS)),
          "conc": {k: 10 ** rng.uniform(-3, 1) for k in "ABCP"}, "uc": [rng.randrange(6) for _ in range(8)],
          "variant": rng.choice(["plain", "plain", "override", "fk", "strarg", "nested"]), "which": rng.randrange(4),
@@ -569,9 +589,10 @@ def check_cls(c):
     from chempy.units import default_constants as dc
     u = _U()
     cls, mode, T, conc, uc, variant, r = c["cls"], c["mode"], c["T"], c["conc"], c["uc"], c["variant"], c["r"]
-    units = mode == "units"
+    units = mode in ("units", "units_math")
     sym = mode == "sympy"
-    backend = _be({"units": "Backend", "sympy": "sympy"}.get(mode, mode))
+    backend = _be({"units": "Backend", "sympy": "sympy", "units_math": None}.get(mode, mode))
+    bk = {} if mode == "units_math" else {"backend": backend}      # units_math: the default backend of Expr.__call__ (math)
     rxn, order = _rxn(c["rxn"])
     subs = {}
 
@@ -805,7 +826,7 @@ def check_cls(c):
             variables[pname] = V(pname, T, "T", uc[3])
             if outside:
                 try:
-                    val = expr(variables, backend=backend)
+                    val = expr(variables, **bk)
                 except ValueError:
                     return True, ""
                 return False, "%s at %r outside all intervals %r returned %r instead of raising ValueError" % (cls, T, bounds, val)
@@ -897,7 +918,7 @@ def check_cls(c):
         else:
             raise AssertionError(cls)
         if expr is not None:
-            got_raw = expr(variables, backend=backend, **kwargs)
+            got_raw = expr(variables, **dict(bk, **kwargs))
         if sym:
             if hasattr(got_raw, "dimensionality"):
                 got_raw = got_raw.magnitude.item() if hasattr(got_raw.magnitude, "item") else got_raw.magnitude
@@ -1027,15 +1048,16 @@ def check_ma(c):
 # ================================================================================================ driver
 _GEN = {"param_sets": gen_param, "param_in_reaction": gen_prx,
         "param_in_reaction_units_default_backend": lambda seed, i: gen_prx(seed, i, True),
-        "expr_classes": gen_cls, "log10_symbolic": gen_log10, "expr_trees": gen_treecase, "massaction_algebra": gen_ma}
+        "expr_classes": gen_cls, "expr_classes_units_default_backend": lambda seed, i: gen_cls(seed, i, True), "log10_symbolic": gen_log10, "expr_trees": gen_treecase, "massaction_algebra": gen_ma}
 _CHECK = {"param_sets": check_param, "param_in_reaction": check_prx, "param_in_reaction_units_default_backend": check_prx,
-          "expr_classes": check_cls, "log10_symbolic": check_log10, "expr_trees": check_tree, "massaction_algebra": check_ma}
+          "expr_classes": check_cls, "expr_classes_units_default_backend": check_cls, "log10_symbolic": check_log10, "expr_trees": check_tree, "massaction_algebra": check_ma}
 _N = {"param_sets": (1500, 60000), "param_in_reaction": (1500, 60000), "param_in_reaction_units_default_backend": (300, 6000),
-      "expr_classes": (2200, 88000), "log10_symbolic": (60, 600), "expr_trees": (2400, 100000), "massaction_algebra": (1100, 44000)}
+      "expr_classes": (2200, 88000), "expr_classes_units_default_backend": (660, 13200), "log10_symbolic": (60, 600), "expr_trees": (2400, 100000), "massaction_algebra": (1100, 44000)}
 _RULE = {
     "param_sets": ("ArrheniusParam(A, Ea) with A 1e-3..1e16, Ea -20..300 kJ/mol (also 0); EyringParam(dH 0..300 kJ/mol, dS -200..200 J/K/mol); "
                    "T 200..2000 K; float mode with backend None/math/numpy/sympy (plus T symbolic under sympy, then substituted) and "
-                   "WithUnits mode (energies in J, kJ or cal per mol, entropies in J or cal per mol per K); Arrhenius: "
+                   "WithUnits mode (energies in J, kJ or cal per mol, entropies in J or cal per mol per K) and the plain classes called "
+                   "with quantities, units=default_units and no constants object; Arrhenius: "
                    "from_rateconst_at_T(Ea, (T, k)) gives A = k exp(Ea/RT), reproduces k at T and k exp(-Ea/R (1/T2 - 1/T)) at T2; "
                    "tolerance 1e-10 (2e-9 with units) * (1 + |exponents|)", "see rule"),
     "param_in_reaction": ("Reaction of order 1..3 (A; A+B; 2A; 2A+B; A+B+C; 3A -> P) with an ArrheniusParam/EyringParam(+WithUnits) as "
@@ -1050,6 +1072,10 @@ _RULE = {
                      "then substituted; variants: plain, one named override through unique_keys (exactly that argument replaced), keys only "
                      "(fk), string argument, nested expression argument, dict arguments, default standard state; piecewise: arguments exactly "
                      "on a bound (closed intervals, first match) and outside all intervals (ValueError with math/numpy)", "see rule"),
+    "expr_classes_units_default_backend": ("the classes and variants of expr_classes with quantities in mixed, non-coherent units (kK vs K, min vs s, "
+                                           "kJ or cal vs J, mol/m3 vs M) evaluated WITHOUT a backend argument, i.e. with the default backend "
+                                           "`math` of Expr.__call__ (math.exp / math.sin of a quantity silently drops unit prefixes unless the code "
+                                           "simplifies first)", "see expr_classes"),
     "log10_symbolic": ("Log10('temperature'), Log10(TPoly) and ShiftedLog10TPoly with log10_temperature = Log10('temperature') evaluated with "
                        "backend=sympy, then substituted", "3 forms x T 200..2000"),
     "expr_trees": ("random trees of depth <= 5 over + - * / ** and negation (incl. double negation), operands that are plain ints/floats on "
